@@ -365,9 +365,70 @@ fn check_op(rep: &Reporter, vars: &[VarDef], optional_on: bool, remap: bool, cnt
     }
 }
 
+/// The options that shape the input types travel from the configuration file through the CLI to two printers (schema
+/// declarations and operation declarations). Every combination of them x which outputs are configured is generated by
+/// the real binary and must equal, byte for byte, what the library entry points give for the same configuration text.
+fn part_cli(args: &RunArgs, rep: &Reporter) -> J {
+    use crate::clilayer::{CProj, run_and_compare};
+    let docs: Vec<String> = crate::c12::var_matrix_docs().into_iter().step_by(if args.quick() { 9 } else { 3 }).collect();
+    let ops: Vec<(String, String)> = docs.iter().enumerate().map(|(i, t)| (format!("src/q{i:03}.graphql"), t.clone())).collect();
+    let mut configs: Vec<(String, CProj)> = vec![];
+    for optional in [None, Some(true), Some(false)] {
+        for resolvers in [false, true] {
+            for server in [false, true] {
+                for mode in 0..3usize {
+                    for remap in [false, true] {
+                        if args.quick() && mode == 1 {
+                            continue;
+                        }
+                        let mut p = CProj::new(vec![("schema/s.graphql".to_string(), crate::gen_sem::SEM_SCHEMA.to_string())], ops.clone());
+                        p.mode = mode;
+                        p.resolvers_out = resolvers.then(|| "generated/resolvers.d.ts".to_string());
+                        p.server_out = server.then(|| "generated/graphql.ts".to_string());
+                        let mut y = String::from("      type:\n        scalarTypes:\n          Date: string\n");
+                        if remap {
+                            y.push_str("          ID: string\n          Int: { send: \"number | bigint\", receive: number }\n");
+                        }
+                        if let Some(o) = optional {
+                            y.push_str(&format!("        allowUndefinedAsOptionalInput: {o}\n"));
+                        }
+                        p.extra_generate = y;
+                        configs.push((format!("allowUndefinedAsOptionalInput={optional:?} resolvers={resolvers} server={server} mode={mode} remap={remap}"), p));
+                    }
+                }
+            }
+        }
+    }
+    let files = AtomicU64::new(0);
+    let accepted = AtomicU64::new(0);
+    crate::explore::par_for(configs.len(), args.threads, |i| {
+        let (tag, p) = &configs[i];
+        let case = |extra: J| json!({"part": "cli", "configuration": tag, "config_text": p.yaml(), "detail": extra});
+        match run_and_compare(p, "c09") {
+            Err(pn) => rep.report(Violation { key: format!("cli.library_panic@{}", pn.key()), what: format!("library entry points panic at {}: {}", pn.site, pn.msg), case: case(json!({})) }),
+            Ok(Err(e)) => rep.report(Violation { key: "machinery.clilayer".into(), what: e, case: case(json!({})) }),
+            Ok(Ok(r)) => {
+                if r.accepted {
+                    accepted.fetch_add(1, Ordering::Relaxed);
+                }
+                files.fetch_add(r.files_compared as u64, Ordering::Relaxed);
+                for (k, w) in &r.diffs {
+                    rep.report(Violation { key: format!("cli.{k}"), what: format!("{tag}: {w}"), case: case(json!({"cli_exit": r.cli.code, "cli_stdout": r.cli.stdout.chars().take(2000).collect::<String>()})) });
+                }
+            }
+        }
+    });
+    crate::cli::cleanup("c09");
+    if accepted.load(Ordering::Relaxed) as usize != configs.len() {
+        rep.report(Violation { key: "machinery.c09_cli_projects".into(), what: format!("only {} of {} configurations were accepted by both routes", accepted.load(Ordering::Relaxed), configs.len()), case: json!({}) });
+    }
+    json!({"configurations": configs.len(), "operation_files": ops.len(), "files_compared_bytewise": files.load(Ordering::Relaxed)})
+}
+
 pub fn run(args: &RunArgs) -> i32 {
     let rep = Reporter::new("C09", &args.tier);
     crate::util::install_hook();
+    let cli_part = part_cli(args, &rep);
     let _ = subj();
     let cnt = Cnt { ops: AtomicU64::new(0), members: AtomicU64::new(0), explicit: AtomicU64::new(0), truncated: AtomicU64::new(0) };
     let distinct = DistinctSet::new();
@@ -411,6 +472,7 @@ pub fn run(args: &RunArgs) -> i32 {
         "type_members_tested_for_coercibility": cnt.members.load(Ordering::Relaxed),
         "explicit_assignments_tested_for_membership": cnt.explicit.load(Ordering::Relaxed),
         "operations_with_truncated_member_enumeration": cnt.truncated.load(Ordering::Relaxed),
+        "through_the_cli": cli_part,
         "samples": [sample.lock().unwrap().clone().unwrap_or_default()],
     });
     rep.finish(
